@@ -127,6 +127,18 @@ func init() {
 			f.Var().Id("_").Op("=").Index().Any().Values(jen.Lit(nz), jen.Lit(float32(nz)), jen.Lit(complex(nz, nz)), jen.Lit(complex64(complex(nz, 0))), jen.Lit(1), jen.Lit(int8(1)), jen.Lit(uint64(1)), jen.Lit("true"))
 			return c09Out(f)
 		}},
+		// a File that declares a package under a name that is not its path's last element, and a client
+		// of that package built independently (no hint)
+		c09Job{"declares-api-types", func(k func(jen.Code) jen.Code) string {
+			f := jen.NewFilePathName("x.io/gen/api-types", "types")
+			f.Type().Id("T").Struct()
+			return c09Out(f)
+		}},
+		c09Job{"client-of-api-types", func(k func(jen.Code) jen.Code) string {
+			f := jen.NewFile("client")
+			f.Var().Id("_").Op("=").Qual("x.io/gen/api-types", "T").Values()
+			return c09Out(f)
+		}},
 		// File.Save of two Files into one directory
 		c09Job{"save-a", func(k func(jen.Code) jen.Code) string { return c09Save("a.go", "save_a") }},
 		c09Job{"save-b", func(k func(jen.Code) jen.Code) string { return c09Save("b.go", "save_b") }})
@@ -409,7 +421,7 @@ func runC09(r *ev.Recorder) {
 	for i, j := range c09Jobs {
 		byName[j.name] = i
 	}
-	jobSets = append(jobSets, []int{byName["zero-literals"], byName["negative-zero-literals"]}, []int{byName["save-a"], byName["save-b"]}, []int{byName["save-a"], byName["save-a"]}, []int{byName["save-b"], byName["save-a"], byName["hinted"]})
+	jobSets = append(jobSets, []int{byName["zero-literals"], byName["negative-zero-literals"]}, []int{byName["save-a"], byName["save-b"]}, []int{byName["save-a"], byName["save-a"]}, []int{byName["save-b"], byName["save-a"], byName["hinted"]}, []int{byName["declares-api-types"], byName["client-of-api-types"]})
 	if r.Tier == ev.Thorough {
 		bound = 3
 		jobSets = append(jobSets, []int{0, 1, 2}, []int{3, 1, 2}, []int{1, 2, 4}, []int{0, 3, 4}, []int{1, 0, 3})
